@@ -2,7 +2,11 @@
 (***************************************************************************)
 (* Outlier ejection of sentinel-golang (core/outlier), property C20.       *)
 (*                                                                         *)
-(* One resource with an outlier-ejection rule cfg = [rule, pct, active].   *)
+(* NRes resources with an outlier-ejection rule cfg = [rule, pct, active]; *)
+(* every resource has its own known nodes, breakers, recycler and retryer  *)
+(* (the same callee address may be known to several resources: separate    *)
+(* breakers).  The answer lists of a request live in a POOLED entry        *)
+(* context shared by all resources (Pooled = TRUE), see OutlierOps.        *)
 (*   Request       consults the breaker of every known node (OutlierOps);  *)
 (*                 answers a filter set and a half-open set; the nodes     *)
 (*                 that rejected are handed to the recycler (and, with     *)
@@ -10,6 +14,8 @@
 (*   Complete      an admitted request finishes at callee n (TraceCallee), *)
 (*                 with or without error; n becomes known; a completion    *)
 (*                 without error marks n as recovered for the recycler     *)
+(*   Leave         an admitted request exits without naming a callee: no   *)
+(*                 breaker sees it; its context goes back to the pool      *)
 (*   Tick          time passes                                             *)
 (*   RecycleFire   the recycle timer of a scheduled node fires: the node   *)
 (*                 is forgotten unless it recovered since it was scheduled *)
@@ -26,6 +32,12 @@
 (*   RecycleSafe   a node is forgotten only by its recycle timer, and only *)
 (*                 if it completed nothing successfully since scheduling   *)
 (*   RecoveredKept a successful completion of a scheduled node marks it    *)
+(*   QuietExact    no node rejects, none is probed => both lists are EMPTY *)
+(*                 (whatever an earlier entry left in the pooled context)  *)
+(*   OwnOnly       the lists name only nodes known to the REQUESTED        *)
+(*                 resource                                                *)
+(*   Isolated      a request / completion / timer of one resource leaves   *)
+(*                 the nodes and the recycler of every other one alone     *)
 (***************************************************************************)
 EXTENDS OutlierOps
 
@@ -36,25 +48,31 @@ CONSTANTS
     MaxT,         \* bound on the clock
     MaxReq,       \* bound on the number of requests
     MaxInflight,  \* bound on concurrently open entries
+    NRes,         \* number of resources (all carry cfg; each has its own nodes / breakers / recycler / retryer)
+    Pooled,       \* TRUE: the answer lists live in pooled entry contexts that keep their content between entries
     Pre,          \* FALSE: start with no known node; TRUE: start from ANY set of known nodes, any of them open
                   \* (deadline at time 3, statistics expired) - reaches many-node ejection states with few requests
     Mut           \* "none"; otherwise a deliberately broken design (vacuity self-test of the property):
                   \* "cap" one node too many, "closed" filter drawn from all known nodes,
-                  \* "half" probes not reported, "recycle" timer ignores the recovered mark
+                  \* "half" probes not reported, "recycle" timer ignores the recovered mark,
+                  \* "stale" a shortcut returns before the lists are written when nothing rejects and nothing is
+                  \*         probed: the request reports what the pooled context still holds
 
 VARIABLES
     now, cfg,
-    nbk,        \* node -> breaker; DOMAIN nbk = known nodes
-    inflight,   \* id -> start time
-    rec,        \* recycler: node -> "sched" | "rec"
-    retry,      \* retryer: nodes with a pending health check (active recovery only)
+    nbk,        \* resource -> (node -> breaker); DOMAIN nbk[r] = nodes known to r
+    inflight,   \* id -> [t = start time, res, ans = the lists in the entry's context]
+    rec,        \* resource -> recycler: node -> "sched" | "rec"
+    retry,      \* resource -> nodes with a pending health check (active recovery only)
+    pool,       \* residues of the idle pooled contexts (a set: the pool may drop or duplicate nothing observable)
     nreq,
     last,       \* the last step                                    (history, hidden by VIEW)
     h           \* scenario for the conformance driver              (history, hidden by VIEW)
 
-vars == <<now, cfg, nbk, inflight, rec, retry, nreq, last, h>>
-view == <<now, cfg, nbk, inflight, rec, retry, nreq>>
+vars == <<now, cfg, nbk, inflight, rec, retry, pool, nreq, last, h>>
+view == <<now, cfg, nbk, inflight, rec, retry, pool, nreq>>
 
+Res == 1..NRes
 PreOpen == [st |-> Open, retryAt |-> 3, probes |-> 0, ref |-> << >>]
 Ids == 1..MaxInflight
 FreeId == CHOOSE i \in Ids \ DOMAIN inflight : \A j \in Ids \ DOMAIN inflight : i <= j
@@ -62,109 +80,144 @@ FreeId == CHOOSE i \in Ids \ DOMAIN inflight : \A j \in Ids \ DOMAIN inflight : 
 Init ==
     /\ now = 1
     /\ cfg \in Cfgs
-    /\ IF Pre THEN nbk \in { [n \in Kn |-> IF n \in Op THEN PreOpen ELSE NewBreaker] : Kn \in SUBSET Nodes, Op \in SUBSET Nodes }
-              ELSE nbk = << >>
-    /\ inflight = << >> /\ rec = << >> /\ retry = {}
+    /\ IF Pre THEN nbk \in [Res -> { [n \in Kn |-> IF n \in Op THEN PreOpen ELSE NewBreaker] : Kn \in SUBSET Nodes, Op \in SUBSET Nodes }]
+              ELSE nbk = [r \in Res |-> << >>]
+    /\ inflight = << >> /\ rec = [r \in Res |-> << >>] /\ retry = [r \in Res |-> {}]
+    /\ pool = {}
     /\ nreq = 0
     /\ last = [op |-> "init"]
-    /\ h = << [op |-> "new", rule |-> cfg.rule, pct |-> cfg.pct, active |-> cfg.active] >>
+    /\ h = << [op |-> "new", rule |-> cfg.rule, pct |-> cfg.pct, active |-> cfg.active, nres |-> NRes] >>
 
-Request ==
+\* a request of resource r draws a context (one of the idle ones, or a new one), consults r's breakers and leaves
+\* its answer in the context
+Request(r) ==
     /\ nreq < MaxReq
     /\ Ids \ DOMAIN inflight # {}
-    /\ LET v   == View(nbk, cfg.rule, now)
+    /\ LET v   == View(nbk[r], cfg.rule, now)
            R   == Rejecting(v)
-           cap == Cap(Cardinality(DOMAIN nbk), cfg.pct) + (IF Mut = "cap" THEN 1 ELSE 0)
-           Pool == IF Mut = "closed" THEN DOMAIN nbk ELSE R
-           k   == Min2(Cardinality(Pool), cap)
+           cap == Cap(Cardinality(DOMAIN nbk[r]), cfg.pct) + (IF Mut = "cap" THEN 1 ELSE 0)
+           Cand == IF Mut = "closed" THEN DOMAIN nbk[r] ELSE R
+           k   == Min2(Cardinality(Cand), cap)
+           H   == IF Mut = "half" THEN {} ELSE ExpHalf(v, cfg.active)
            id  == FreeId
-       IN  \E F \in { S \in SUBSET Pool : Cardinality(S) = k } :
-              /\ nbk' = After(v)
-              /\ rec' = IF R = {} THEN rec ELSE Sched(rec, R)
-              /\ retry' = IF cfg.active THEN retry \cup R ELSE retry
-              /\ inflight' = With(inflight, id, now)
-              /\ last' = [op |-> "req", filter |-> F, half |-> IF Mut = "half" THEN {} ELSE ExpHalf(v, cfg.active)]
-              /\ h' = Append(h, [op |-> "req", id |-> id])
+       IN  \E F \in { S \in SUBSET Cand : Cardinality(S) = k }, c \in (IF Pooled THEN pool ELSE {}) \cup {FreshCtx} :
+              LET ans == IF Mut = "stale" /\ R = {} /\ H = {} THEN c ELSE Answer(F, H)
+              IN  /\ nbk' = [nbk EXCEPT ![r] = After(v)]
+                  /\ rec' = IF R = {} THEN rec ELSE [rec EXCEPT ![r] = Sched(@, R)]
+                  /\ retry' = IF cfg.active THEN [retry EXCEPT ![r] = @ \cup R] ELSE retry
+                  /\ pool' = pool \ {c}
+                  /\ inflight' = With(inflight, id, [t |-> now, res |-> r, ans |-> IF Pooled THEN ans ELSE FreshCtx])
+                  /\ last' = [op |-> "req", res |-> r, filter |-> ans.filter, half |-> ans.half]
+                  /\ h' = Append(h, [op |-> "req", id |-> id, res |-> r])
     /\ nreq' = nreq + 1
     /\ UNCHANGED <<now, cfg>>
 
+\* the context of a finished entry goes back to the pool WITH its lists
+Release(id) == pool' = IF Pooled THEN pool \cup {inflight[id].ans} ELSE pool
+
 Complete(id, n, err) ==
     /\ id \in DOMAIN inflight
-    /\ nbk' = CompleteAt(nbk, cfg.rule, n, now, now - inflight[id], err)
-    /\ rec' = IF err THEN rec ELSE Recover(rec, n)
+    /\ LET r == inflight[id].res
+       IN  /\ nbk' = [nbk EXCEPT ![r] = CompleteAt(@, cfg.rule, n, now, now - inflight[id].t, err)]
+           /\ rec' = IF err THEN rec ELSE [rec EXCEPT ![r] = Recover(@, n)]
+           /\ last' = [op |-> "done", res |-> r, node |-> n, err |-> err]
+    /\ Release(id)
     /\ inflight' = Without(inflight, {id})
-    /\ last' = [op |-> "done", node |-> n, err |-> err]
     /\ h' = Append(h, [op |-> "done", id |-> id, node |-> n, err |-> err])
     /\ UNCHANGED <<now, cfg, retry, nreq>>
+
+\* the entry exits without a callee address: the statistic slot ignores it
+Leave(id) ==
+    /\ id \in DOMAIN inflight
+    /\ Release(id)
+    /\ inflight' = Without(inflight, {id})
+    /\ last' = [op |-> "leave", res |-> inflight[id].res]
+    /\ h' = Append(h, [op |-> "leave", id |-> id])
+    /\ UNCHANGED <<now, cfg, nbk, rec, retry, nreq>>
 
 Tick(d) ==
     /\ now + d <= MaxT
     /\ now' = now + d
-    /\ nbk' = [n \in DOMAIN nbk |-> [nbk[n] EXCEPT !.ref = Prune(@, BL(cfg.rule), cfg.rule.I, now + d)]]
+    /\ nbk' = [r \in Res |-> [n \in DOMAIN nbk[r] |-> [nbk[r][n] EXCEPT !.ref = Prune(@, BL(cfg.rule), cfg.rule.I, now + d)]]]
     /\ last' = [op |-> "tick"]
     /\ h' = Append(h, [op |-> "tick", d |-> d])
-    /\ UNCHANGED <<cfg, inflight, rec, retry, nreq>>
+    /\ UNCHANGED <<cfg, inflight, rec, retry, pool, nreq>>
 
-RecycleFire(n) ==
-    /\ n \in DOMAIN rec
-    /\ nbk' = IF rec[n] = "sched" \/ Mut = "recycle" THEN Without(nbk, {n}) ELSE nbk
-    /\ rec' = Without(rec, {n})
-    /\ last' = [op |-> "recycle", node |-> n]
-    /\ h' = Append(h, [op |-> "recycle", node |-> n])
-    /\ UNCHANGED <<now, cfg, inflight, retry, nreq>>
+RecycleFire(r, n) ==
+    /\ n \in DOMAIN rec[r]
+    /\ nbk' = IF rec[r][n] = "sched" \/ Mut = "recycle" THEN [nbk EXCEPT ![r] = Without(@, {n})] ELSE nbk
+    /\ rec' = [rec EXCEPT ![r] = Without(@, {n})]
+    /\ last' = [op |-> "recycle", res |-> r, node |-> n]
+    /\ h' = Append(h, [op |-> "recycle", res |-> r, node |-> n])
+    /\ UNCHANGED <<now, cfg, inflight, retry, pool, nreq>>
 
-ActiveOK(n) ==
-    /\ n \in retry
-    /\ retry' = retry \ {n}
-    /\ rec' = Recover(rec, n)
-    /\ nbk' = IF n \in DOMAIN nbk THEN [nbk EXCEPT ![n] = OnComplete(@, cfg.rule, now, 0, FALSE)] ELSE nbk
-    /\ last' = [op |-> "active", node |-> n]
-    /\ h' = Append(h, [op |-> "active", node |-> n])
-    /\ UNCHANGED <<now, cfg, inflight, nreq>>
+ActiveOK(r, n) ==
+    /\ n \in retry[r]
+    /\ retry' = [retry EXCEPT ![r] = @ \ {n}]
+    /\ rec' = [rec EXCEPT ![r] = Recover(@, n)]
+    /\ nbk' = IF n \in DOMAIN nbk[r] THEN [nbk EXCEPT ![r][n] = OnComplete(@, cfg.rule, now, 0, FALSE)] ELSE nbk
+    /\ last' = [op |-> "active", res |-> r, node |-> n]
+    /\ h' = Append(h, [op |-> "active", res |-> r, node |-> n])
+    /\ UNCHANGED <<now, cfg, inflight, pool, nreq>>
 
 Next ==
-    \/ Request
+    \/ \E r \in Res : Request(r)
     \/ \E id \in Ids, n \in Nodes, err \in BOOLEAN : Complete(id, n, err)
+    \/ \E id \in Ids : Leave(id)
     \/ \E d \in Steps : Tick(d)
-    \/ \E n \in Nodes : RecycleFire(n)
-    \/ \E n \in Nodes : ActiveOK(n)
+    \/ \E r \in Res, n \in Nodes : RecycleFire(r, n)
+    \/ \E r \in Res, n \in Nodes : ActiveOK(r, n)
 
 Spec == Init /\ [][Next]_vars
 
 ---------------------------------------------------------------------------
 (* The property, restated on the pre-state without the operators Request uses *)
 
-Known == DOMAIN nbk
-RejectsNow(n) ==
-    \/ nbk[n].st = Open /\ now < nbk[n].retryAt
-    \/ nbk[n].st = HalfOpen /\ cfg.rule.probeNum = 0
+Known(r) == DOMAIN nbk[r]
+RejectsNow(r, n) ==
+    \/ nbk[r][n].st = Open /\ now < nbk[r][n].retryAt
+    \/ nbk[r][n].st = HalfOpen /\ cfg.rule.probeNum = 0
 \* the request is a probe of n: n is half-open afterwards and was admitted by n's breaker
-ProbedBy(n) == ~RejectsNow(n) /\ nbk'[n].st = HalfOpen
+ProbedBy(r, n) == ~RejectsNow(r, n) /\ nbk'[r][n].st = HalfOpen
 
 TypeOK ==
     /\ now >= 1 /\ nreq \in 0..MaxReq
-    /\ Known \subseteq Nodes
-    /\ \A n \in Known : nbk[n].st \in {Closed, HalfOpen, Open} /\ nbk[n].probes >= 0
-    /\ DOMAIN rec \subseteq Nodes /\ \A n \in DOMAIN rec : rec[n] \in {"sched", "rec"}
-    /\ \A id \in DOMAIN inflight : inflight[id] <= now
-    /\ ~cfg.active => retry = {}
+    /\ DOMAIN nbk = Res /\ DOMAIN rec = Res /\ DOMAIN retry = Res
+    /\ \A r \in Res :
+         /\ Known(r) \subseteq Nodes
+         /\ \A n \in Known(r) : nbk[r][n].st \in {Closed, HalfOpen, Open} /\ nbk[r][n].probes >= 0
+         /\ DOMAIN rec[r] \subseteq Nodes /\ \A n \in DOMAIN rec[r] : rec[r][n] \in {"sched", "rec"}
+         /\ ~cfg.active => retry[r] = {}
+    /\ \A id \in DOMAIN inflight : inflight[id].t <= now /\ inflight[id].res \in Res
+    /\ ~Pooled => pool = {}
+    /\ \A c \in pool : c.filter \subseteq Nodes /\ c.half \subseteq Nodes
 
 IsReq == last'.op = "req"
-FilterSound  == IsReq => \A n \in last'.filter : n \in Known /\ RejectsNow(n)
-CapRespected == IsReq => Cardinality(last'.filter) * cfg.pct[2] <= Cardinality(Known) * cfg.pct[1]
-HalfExact    == IsReq => last'.half = (IF cfg.active THEN {} ELSE { n \in Known : ProbedBy(n) })
-RecycleSafe  == \A n \in Known \ DOMAIN nbk' :
-                    last'.op = "recycle" /\ last'.node = n /\ n \in DOMAIN rec /\ rec[n] = "sched"
-RecoveredKept == (last'.op = "done" /\ ~last'.err /\ last'.node \in DOMAIN rec)
-                    => rec'[last'.node] = "rec" /\ last'.node \in DOMAIN nbk'
+LR    == last'.res
+FilterSound  == IsReq => \A n \in last'.filter : n \in Known(LR) /\ RejectsNow(LR, n)
+CapRespected == IsReq => Cardinality(last'.filter) * cfg.pct[2] <= Cardinality(Known(LR)) * cfg.pct[1]
+HalfExact    == IsReq => last'.half = (IF cfg.active THEN {} ELSE { n \in Known(LR) : ProbedBy(LR, n) })
+QuietExact   == (IsReq /\ \A n \in Known(LR) : ~RejectsNow(LR, n) /\ (cfg.active \/ ~ProbedBy(LR, n)))
+                    => last'.filter = {} /\ last'.half = {}
+OwnOnly      == IsReq => (last'.filter \cup last'.half) \subseteq Known(LR)
+RecycleSafe  == \A r \in Res : \A n \in Known(r) \ DOMAIN nbk'[r] :
+                    last'.op = "recycle" /\ last'.res = r /\ last'.node = n /\ n \in DOMAIN rec[r] /\ rec[r][n] = "sched"
+RecoveredKept == (last'.op = "done" /\ ~last'.err /\ last'.node \in DOMAIN rec[LR])
+                    => rec'[LR][last'.node] = "rec" /\ last'.node \in DOMAIN nbk'[LR]
 \* requests never make a node known or unknown; completions only add
-KnownMoves   == /\ IsReq => DOMAIN nbk' = Known
-                /\ last'.op = "done" => DOMAIN nbk' = Known \cup {last'.node}
+KnownMoves   == /\ IsReq => DOMAIN nbk'[LR] = Known(LR)
+                /\ last'.op = "done" => DOMAIN nbk'[LR] = Known(LR) \cup {last'.node}
+                /\ last'.op = "leave" => nbk' = nbk /\ rec' = rec
+\* whatever one resource does, the nodes and the recycler of the others stay as they are (time only prunes statistics)
+Isolated     == "res" \in DOMAIN last' => \A r \in Res \ {LR} : nbk'[r] = nbk[r] /\ rec'[r] = rec[r] /\ retry'[r] = retry[r]
 
 PFilter  == [][FilterSound]_vars
 PCap     == [][CapRespected]_vars
 PHalf    == [][HalfExact]_vars
+PQuiet   == [][QuietExact]_vars
+POwn     == [][OwnOnly]_vars
 PRecycle == [][RecycleSafe]_vars
 PKept    == [][RecoveredKept]_vars
 PKnown   == [][KnownMoves]_vars
+PIsolated == [][Isolated]_vars
 =============================================================================
